@@ -153,7 +153,7 @@ pub trait DecisionNNFBuilder<'a>: TopDownBuilder<'a, BddPtr<'a>> {
         match bdd {
             BddPtr::PtrTrue | BddPtr::PtrFalse => bdd,
             BddPtr::Reg(node) | BddPtr::Compl(node) if node.var == lbl => {
-                let r = if value { bdd.high() } else { bdd.low() };
+                let r = if value { bdd.high_raw() } else { bdd.low_raw() };
                 #[cfg(rsdd_verif)]
                 if bdd.is_neg() {
                     crate::verif::probe(crate::verif::Probe::DnnfCondFlip);
@@ -171,8 +171,8 @@ pub trait DecisionNNFBuilder<'a>: TopDownBuilder<'a, BddPtr<'a>> {
                 }
 
                 // recurse on the children
-                let l = self.cond_helper(bdd.low(), lbl, value);
-                let h = self.cond_helper(bdd.high(), lbl, value);
+                let l = self.cond_helper(bdd.low_raw(), lbl, value);
+                let h = self.cond_helper(bdd.high_raw(), lbl, value);
                 if l == h {
                     if bdd.is_neg() {
                         return l.neg();
@@ -180,7 +180,7 @@ pub trait DecisionNNFBuilder<'a>: TopDownBuilder<'a, BddPtr<'a>> {
                         return l;
                     };
                 };
-                let res = if l != bdd.low() || h != bdd.high() {
+                let res = if l != bdd.low_raw() || h != bdd.high_raw() {
                     // cache and return the new BDD
                     let new_bdd = BddNode::new(node.var, l, h);
                     let r = self.get_or_insert(new_bdd);
